@@ -42,12 +42,18 @@ class Report:
         self.extra = {}
         self.units = []
         self.functions = set()
+        self._distinct = set()      # distinct (rule, case description) pairs seen by instance()
+        self._undescribed = 0
     def rule(self, rid, desc):
         r = self.rules.setdefault(rid, {'desc': desc, 'instances': 0, 'obligations': 0, 'discharged': 0, 'samples': []})
         return r
     def instance(self, rid, sample=None, n=1):
         r = self.rules[rid]
         r['instances'] += n
+        if sample is not None:
+            self._distinct.add((rid, sample))
+        else:
+            self._undescribed += n
         if sample is not None and len(r['samples']) < 6:
             r['samples'].append(sample)
     def oblig(self, rid, ok, n=1):
@@ -87,9 +93,9 @@ class Report:
             'discharged': discharged,
             'checker_cmd': checker_cmd or ('python3-vt -m nsa.check %s --tier %s' % (self.pid, self.tier)),
             'trusted_base': trusted_base,
-            'evaluations': max(instances, 1),
-            'distinct_nontrivial': max(instances, 2) if instances >= 2 else 2,
-            'rule': 'one evaluation = one rule instance (site x context) found in the IR of the current tree; all are distinct program points',
+            'evaluations': instances,
+            'distinct_nontrivial': len(self._distinct),
+            'rule': 'one evaluation = one rule instance (rule x site x calling context / path / precondition shape) that the analysis found in the IR of the current tree and judged; two instances are distinct when their descriptions (rule id, source position, context, abstract pre-state summary) differ, counted as the size of the set of descriptions; every instance carries at least one obligation, so none is trivial; instances recorded without a description are not counted as distinct (%d this run)' % self._undescribed,
             'samples': samples or [{'note': 'no instances'}],
             'rules': {rid: {k: r[k] for k in ('desc', 'instances', 'obligations', 'discharged')} for rid, r in sorted(self.rules.items())},
             'units_analysed': self.units,
